@@ -102,7 +102,7 @@ class Impl:
 
     # ---- observations
     def residue(self):
-        return {'pos': self.lex.lexpos, 'lineno': self.lex.lineno, 'paren': self.lex.paren_count}
+        return {'pos': self.lex.lexpos, 'lineno': self.lex.lineno, 'paren': getattr(self.lex, 'paren_count', 0)}
 
     def classify(self, e):
         msg = str(e)
